@@ -13,7 +13,7 @@ import (
 // ShimOutcomes explores every schedule of a program (preemption bound 6) and returns the set of outcomes.
 func ShimOutcomes(p progs.Prog) (outs []string, execs int64, fatal []string) {
 	set := map[string]bool{}
-	r := mc.Explore(mc.Config{PreBound: 6, MaxSteps: 2000}, func() {
+	r := mc.Explore(mc.Config{PreBound: 6, FaultBound: 2, MaxSteps: 2000}, func() {
 		out := p.Run()
 		mc.Note("out", out)
 	}, func(x *mc.Exec) ([]mc.Finding, string) {
